@@ -333,7 +333,10 @@ def run_life(prop, tier, seed, keep=False):
             n = 1500 if tier == "quick" else 20000
             w.run_drive(["gen", "-profile", "redef", "-n", str(n), "-seed", str(seed), "-out", "scenarios.json"])
             w.run_drive(["gen", "-profile", "wild", "-n", str(n), "-seed", str(seed + 3), "-sid0", str(n + 1), "-out", "scenarios2.json"])
-            allscn = json.load(open(w.path("scenarios.json"))) + [x for x in json.load(open(w.path("scenarios2.json"))) if x["mode"] == "redefine"]
+            # ... and with converter generators (a generated converter is planned with like a supplied one: it must not run either)
+            w.run_drive(["gen", "-profile", "redefgen", "-n", str(n), "-seed", str(seed + 5), "-sid0", str(2 * n + 1), "-out", "scenarios3.json"])
+            allscn = json.load(open(w.path("scenarios.json"))) + [x for x in json.load(open(w.path("scenarios2.json"))) if x["mode"] == "redefine"] \
+                + json.load(open(w.path("scenarios3.json")))
             vlib.write_json(w.path("scenarios.json"), allscn)
             r = w.run_drive(["run", "-in", "scenarios.json", "-reps", "3", "-seed", str(seed), "-out", "trace.ndjson"])
             log(r.stderr.strip())
